@@ -403,7 +403,16 @@ func c10RunBook(ops []string) string {
 		}
 		out = append(out, strconv.Itoa(rm.HighestPriority()))
 	}
-	return c10Join(out, ",")
+	// which monitors count as activated in the end (Skip marks a monitor activated as well)
+	act := ""
+	for _, m := range mons {
+		if m.IsActivated() {
+			act += "1"
+		} else {
+			act += "0"
+		}
+	}
+	return c10Join(out, ",") + " act=" + act
 }
 
 // ---------------------------------------------------------------- K: cascades
@@ -589,13 +598,40 @@ func c10RunCascade(payload string, workers int, flag bool, roots [][]c10Node) st
 	var res []string
 	for r := range roots {
 		var errIDs []c10Pair
+		// event paths of the failed events (only when the root monitor itself carries an event:
+		// otherwise the chain starts at a monitor without an event)
+		rootHasEvent := len(roots[r]) > 0 && roots[r][0].useRoot
+		pathOf := map[int]string{}
 		for _, te := range rms[r].AllErrors() {
+			ev := te.Event.State()["n"].(int)
 			for name := range te.ErrorMap {
 				k, _ := strconv.Atoi(name[strings.LastIndex(name, "k")+1:])
-				errIDs = append(errIDs, c10Pair{te.Event.State()["n"].(int), k})
+				errIDs = append(errIDs, c10Pair{ev, k})
+			}
+			if te.Monitor.Errors() != te {
+				hpBad = fmt.Sprintf("bad:root%d.event%d:Monitor.Errors() is not the reported TaskError", r, ev)
+			}
+			if rootHasEvent {
+				var ids []string
+				for _, e := range te.Monitor.EventPath() {
+					ids = append(ids, strconv.Itoa(e.State()["n"].(int)))
+				}
+				pathOf[ev] = strings.Join(ids, ">")
+				if want := strings.ReplaceAll(te.Monitor.EventPathString(), fmt.Sprintf("n%d.", r), ""); want != strings.Join(ids, " -> ") {
+					hpBad = fmt.Sprintf("bad:root%d.event%d:EventPathString %q", r, ev, want)
+				}
 			}
 		}
-		end := " end=" + strconv.Itoa(rms[r].HighestPriority())
+		var evs []int
+		for ev := range pathOf {
+			evs = append(evs, ev)
+		}
+		sort.Ints(evs)
+		var ps []string
+		for _, ev := range evs {
+			ps = append(ps, fmt.Sprintf("%d:%s", ev, pathOf[ev]))
+		}
+		end := " path=" + c10Join(ps, ";") + " end=" + strconv.Itoa(rms[r].HighestPriority())
 		if workers == 1 {
 			res = append(res, c10Join(started[r], ".")+" err="+c10Pairs(errIDs)+end)
 		} else {
